@@ -165,8 +165,10 @@ func (v valT) sx() string {
 	switch v.kind {
 	case "nil", "nilptr", "invalid", "unenc":
 		return v.kind
-	case "text", "bytea":
+	case "text", "bytea", "uuid":
 		return sx(v.kind, v.b)
+	case "float4", "float8":
+		return sx(v.kind, uint64(v.n))
 	default:
 		return sx(v.kind, v.n)
 	}
@@ -282,8 +284,12 @@ func valFrom(n *node) valT {
 		return valT{kind: n.atom}
 	}
 	k := n.head()
-	if k == "text" || k == "bytea" {
+	if k == "text" || k == "bytea" || k == "uuid" {
 		return valT{kind: k, b: unhx(n.list[1].atom)}
+	}
+	if k == "float4" || k == "float8" {
+		u, _ := strconv.ParseUint(n.list[1].atom, 10, 64)
+		return valT{kind: k, n: int64(u)}
 	}
 	v, _ := strconv.ParseInt(n.list[1].atom, 10, 64)
 	return valT{kind: k, n: v}
